@@ -825,7 +825,7 @@ PROPS["C19"].update({
 })
 
 # properties whose checks are still being stabilised are not claimed in MANIFEST.json yet
-NOT_READY = ["C01", "C02", "C03", "C05", "C08", "C09", "C10", "C11", "C12", "C13", "C14", "C16", "C19"]
+NOT_READY = ["C01", "C02", "C03", "C05", "C09", "C10", "C12", "C13", "C14", "C16", "C19"]
 for _p in NOT_READY:
     if _p in PROPS:
         PROPS[_p]["claimed"] = False
